@@ -206,7 +206,25 @@ pub mod env {
         match h % 10 {
             0..=2 => None,
             3..=5 => Some(None),
-            _ => Some(Some(VALUES[((h >> 8) % VALUES.len() as u64) as usize].to_string())),
+            _ => {
+                // values that mean something for well-known variables, otherwise generic ones
+                let special: &[&str] = match key.to_str().unwrap_or("") {
+                    "COLORFGBG" => &["15;0", "0;15", "0;default;15", "7;0", "0;7", "12;8"],
+                    "TERM" => &["dumb", "xterm", "xterm-256color", "linux", "vt100", "screen"],
+                    "COLORTERM" => &["truecolor", "24bit", "", "1"],
+                    "NO_COLOR" | "CLICOLOR" | "CLICOLOR_FORCE" | "FORCE_COLOR" => &["1", "0", "", "true"],
+                    "LANG" | "LC_ALL" | "LC_CTYPE" | "LC_MESSAGES" | "LANGUAGE" => &["C", "POSIX", "en_US.UTF-8", "en_US", "de_DE.ISO-8859-1", "ja_JP.eucJP", "C.UTF-8", "tr_TR.UTF-8"],
+                    "TZ" => &["UTC", "Europe/Paris", "America/Los_Angeles", ":/etc/localtime", "JST-9"],
+                    "COLUMNS" | "LINES" => &["80", "24", "1", "0", "200", "abc"],
+                    "SOURCE_DATE_EPOCH" => &["0", "1", "1700000000", "-1", "x"],
+                    "HOME" | "TMPDIR" | "TMP" | "TEMP" | "XDG_CACHE_HOME" | "XDG_CONFIG_HOME" => &["/tmp", "/nonexistent", "", "/"],
+                    _ => &[],
+                };
+                if !special.is_empty() {
+                    return Some(Some(special[((h >> 8) % special.len() as u64) as usize].to_string()));
+                }
+                Some(Some(VALUES[((h >> 8) % VALUES.len() as u64) as usize].to_string()))
+            }
         }
     }
 
@@ -536,8 +554,10 @@ pub mod sync {
             }
         }
         pub fn lock(&self) -> real::LockResult<MutexGuard<'_, T>> {
+            // one ordinary scheduling point before the first attempt; a retry after having been
+            // blocked is not progress and must not look like it to the deadlock detector
+            point("sync:mutex_lock");
             loop {
-                point("sync:mutex_lock");
                 match self.0.try_lock() {
                     Ok(g) => return Ok(MutexGuard { g, m: self }),
                     Err(real::TryLockError::Poisoned(p)) => {
@@ -879,8 +899,8 @@ pub mod sync {
                     return self.real.send(t);
                 }
                 let mut t = t;
+                point("sync:mpsc_send");
                 loop {
-                    point("sync:mpsc_send");
                     match self.real.try_send(t) {
                         Ok(()) => return Ok(()),
                         Err(TrySendError::Disconnected(v)) => return Err(SendError(v)),
@@ -919,8 +939,8 @@ pub mod sync {
                     point("sync:mpsc_recv");
                     return self.real.recv();
                 }
+                point("sync:mpsc_recv");
                 loop {
-                    point("sync:mpsc_recv");
                     match self.real.try_recv() {
                         Ok(v) => return Ok(v),
                         Err(TryRecvError::Disconnected) => return Err(RecvError),
@@ -946,8 +966,8 @@ pub mod sync {
                     return self.real.recv_timeout(timeout);
                 }
                 let deadline = clock(0).unwrap_or(0).saturating_add(timeout.as_nanos().min(u64::MAX as u128) as u64);
+                point("sync:mpsc_recv");
                 loop {
-                    point("sync:mpsc_recv");
                     match self.real.try_recv() {
                         Ok(v) => return Ok(v),
                         Err(TryRecvError::Disconnected) => return Err(RecvTimeoutError::Disconnected),
@@ -1040,8 +1060,8 @@ pub mod sync {
 
     impl<T: ?Sized> RwLock<T> {
         pub fn read(&self) -> real::LockResult<real::RwLockReadGuard<'_, T>> {
+            point("sync:rwlock_read");
             loop {
-                point("sync:rwlock_read");
                 match self.0.try_read() {
                     Ok(g) => return Ok(g),
                     Err(real::TryLockError::Poisoned(p)) => return Err(p),
@@ -1054,8 +1074,8 @@ pub mod sync {
             }
         }
         pub fn write(&self) -> real::LockResult<real::RwLockWriteGuard<'_, T>> {
+            point("sync:rwlock_write");
             loop {
-                point("sync:rwlock_write");
                 match self.0.try_write() {
                     Ok(g) => return Ok(g),
                     Err(real::TryLockError::Poisoned(p)) => return Err(p),
@@ -1151,8 +1171,8 @@ pub mod sync {
         }
 
         fn run(&self, ignore_poison: bool, f: &mut dyn FnMut(&OnceState)) {
+            point("sync:once_call");
             loop {
-                point("sync:once_call");
                 match self.state.load(Ordering::SeqCst) {
                     COMPLETE => return,
                     POISONED if !ignore_poison => panic!("Once instance has previously been poisoned"),
